@@ -715,6 +715,12 @@ func (vc *VC) evalSpecCall(env *Env, x *SCall) Val {
 				return v
 			}
 		}
+		if id, ok := x.Args[0].(*SIdent); ok {
+			// a captured variable of the closure whose contract this is
+			if v, ok := env.vars["&"+id.Name]; ok {
+				return v
+			}
+		}
 		// addr(xs[i]) / addr(p.f): the address of a struct that lives in memory
 		if loc, t, ok := vc.specPlace(env, x.Args[0]); ok {
 			return Val{T: loc, Typ: types.NewPointer(t)}
@@ -1409,6 +1415,10 @@ func (f *frame) typeLevelPats(callee *ssa.Function, c *Clause) []modPat {
 	env := &Env{vc: vc, st: f.entry, old: f.entry, vars: map[string]Val{}, fn: callee, specFile: c.File}
 	for _, p := range callee.Params {
 		env.vars[p.Name()] = Val{T: "Null", Typ: p.Type()}
+	}
+	for _, fv := range callee.FreeVars {
+		// captured variables of a closure under contract: placeholders too
+		env.vars["&"+fv.Name()] = Val{T: "Null", Typ: fv.Type()}
 	}
 	loc, t, steps, ok := vc.specAddr(env, c.Expr)
 	if !ok {
